@@ -22,7 +22,9 @@ func init() {
 			"(c) in the per-duty info calculation every per-validator array (duty arrays, aggregators, signatures, accounts, committee sizes) is indexed by the range index over the duty's validators; " +
 			"(d) in AttestAndScheduleAggregate the loop over the slot's attestations has no exit other than exhaustion, the aggregation job is scheduled only under info.IsAggregator, is named after that attestation's slot and committee and captures that info's validator and slot signature; " +
 			"(e) aggregators[i] is computed from the i-th signature and i-th committee size with the TARGET_AGGREGATORS_PER_COMMITTEE divisor clamped to >= 1. " +
-			"NOT decided: the selection arithmetic against the specification (hash mod n), the policy of one info per committee when two local validators share it, timing.",
+			"(f) a validator's info is left out of the per-committee record only when an aggregator is already recorded for that slot and committee, and a recorded aggregator is never replaced; " +
+			"(g) the controller's stored subscription info is replaced only by the result of a successful Subscribe and deleted only for an epoch before the chain's present one. " +
+			"NOT decided: the selection arithmetic against the specification (hash mod n), timing.",
 		Technique: "AST loop-exit analysis, SSA guard/edge-deletion queries, provenance of composite-literal fields and call arguments, index-space analysis of per-validator arrays",
 		Rule:      "one obligation per loop (a,d), per literal field (b,d), per indexed access (c), per store (e); non-trivial = the anchor construct exists and was analysed",
 	})
@@ -316,6 +318,129 @@ func runC14(p *core.Prog, r *core.Report, tier string) {
 
 	// ---- (c): per-validator arrays indexed consistently ----
 	runIndexSpaces(p, r, ds, "C14.c", p.FuncsIn(bcsRel), 6)
+
+	// ---- (f): one info per committee, and it is an aggregator's whenever one of the validators is one ----
+	nF := 0
+	for _, f := range p.FuncsIn(bcsRel) {
+		core.EachInstr(f, func(in ssa.Instruction) {
+			mu, ok := in.(*ssa.MapUpdate)
+			if !ok {
+				return
+			}
+			if pt, isPtr := mu.Value.Type().(*types.Pointer); !isPtr || typeName(pt) != "beaconcommitteesubscriber.Subscription" {
+				return
+			}
+			nF++
+			construct := core.FnKey(f) + "|record"
+			// the presence lookup with the same key on the same (slot) map
+			keyD := ds.D(mu.Key).String()
+			var lk *ssa.Lookup
+			core.EachInstr(f, func(x ssa.Instruction) {
+				if l, ok := x.(*ssa.Lookup); ok && l.CommaOk && ds.D(l.Index).String() == keyD && isSubscriptionPtr(l.Type().(*types.Tuple).At(0).Type()) {
+					lk = l
+				}
+			})
+			if lk == nil {
+				r.Violate("C14.f", construct+"|presence-test", p.Pos(mu.Pos()), "the info of a committee is recorded without looking up what is already recorded for the same slot and committee (an aggregator's info could be overwritten by a non-aggregator's)")
+				return
+			}
+			isAgg := func(c core.Cond) int {
+				if c.B != nil && c.B.Kind == "field" && c.B.Name == "IsAggregator" && c.B.MentionsValue(lk) {
+					if c.BoolOnEdge(0) {
+						return 0
+					}
+					return 1
+				}
+				return -1
+			}
+			est := core.GuardEdges(ds, f, isAgg)
+			// (f1) an iteration ends without recording only when an aggregator is already recorded
+			w := core.PathQuery{Fn: f, From: lk, Target: func(x ssa.Instruction) bool { return x == ssa.Instruction(lk) },
+				Avoid: func(x ssa.Instruction) bool { return x == ssa.Instruction(mu) },
+				Edge: func(b *ssa.BasicBlock, succ int) bool {
+					if s, ok := est[b]; ok && s == succ {
+						return false
+					}
+					return true
+				}}.Find()
+			r.Check(w == nil, "C14.f", construct+"|skip-only-when-aggregator-recorded", p.Pos(mu.Pos()),
+				"a validator's info is skipped only when the committee already has an aggregator recorded",
+				"a validator's info can be skipped although no aggregator is recorded for its committee: a later validator of the committee that is a selected aggregator is dropped, and no aggregation job is set up", p.WitnessText(w)...)
+			// (f2) a recorded aggregator is never overwritten
+			bad := false
+			for b, s := range est {
+				tgt := b.Succs[s]
+				if len(tgt.Instrs) == 0 {
+					continue
+				}
+				first := tgt.Instrs[0]
+				hit := first == ssa.Instruction(mu)
+				if !hit {
+					w2 := core.PathQuery{Fn: f, From: first, Target: func(x ssa.Instruction) bool { return x == ssa.Instruction(mu) },
+						Avoid: func(x ssa.Instruction) bool { return x == ssa.Instruction(lk) }}.Find()
+					hit = w2 != nil
+				}
+				if hit {
+					bad = true
+				}
+			}
+			r.Check(!bad && len(est) > 0, "C14.f", construct+"|aggregator-not-overwritten", p.Pos(mu.Pos()),
+				"once an aggregator is recorded for the committee no other info replaces it",
+				"the recorded info of a committee can be replaced although it is an aggregator's (or the recorded info's IsAggregator is never tested)")
+		})
+	}
+	r.Floor("C14.f per-committee info stores", nF, 1)
+
+	// ---- (g): stored subscription info stays until its epoch is over ----
+	infoField := core.FieldID{Owner: ctrlRel + ".Service", Name: "subscriptionInfos"}
+	nG := 0
+	for _, f := range p.FuncsIn(ctrlRel) {
+		if f.Name() == "New" {
+			continue
+		}
+		for _, op := range core.MapOps(f) {
+			if op.Field != infoField {
+				continue
+			}
+			switch op.Kind {
+			case "delete":
+				nG++
+				kd := ds.D(op.Key)
+				ok := false
+				if kd.Kind == "binop" && kd.Name == "-" && len(kd.Args) == 2 && kd.Args[1].Kind == "const" && kd.Args[1].Name != "0" &&
+					(kd.Args[0].MentionsCall("SlotToEpoch") || kd.Args[0].MentionsCall("CurrentEpoch")) {
+					ok = true
+				}
+				r.Check(ok, "C14.g", core.FnKey(f)+"|delete", p.Pos(op.Instr.Pos()), "only an epoch before the chain's present one is dropped: key = "+kd.String(),
+					"subscription info is deleted for key "+kd.String()+", which is not an epoch before the present one: attestations of that epoch then find no info and set up no aggregation")
+			case "insert":
+				nG++
+				vd := ds.D(op.Val)
+				okv := vd.MentionsCall("Subscribe")
+				r.Check(okv, "C14.g", core.FnKey(f)+"|insert", p.Pos(op.Instr.Pos()), "stored info is the result of Subscribe: "+vd.String(), "stored info does not come from Subscribe: "+vd.String())
+				if call := findCallIn(vd, "Subscribe"); call != nil {
+					errV := core.ExtractOf(call, 1)
+					if errV != nil {
+						w := core.Unguarded(ds, f, call.(ssa.Instruction), func(x ssa.Instruction) bool { return x == op.Instr }, func(c core.Cond) int { return core.ErrNilSucc(c, errV) })
+						r.Check(w == nil, "C14.g", core.FnKey(f)+"|insert|on-success", p.Pos(op.Instr.Pos()), "info is replaced only when Subscribe succeeded", "info is replaced although Subscribe failed", p.WitnessText(w)...)
+					}
+				}
+			}
+		}
+	}
+	r.Floor("C14.g subscription info writers", nG, 2)
+}
+
+// findCallIn returns the call value with the given method name mentioned in a description.
+func findCallIn(d *core.VD, name string) ssa.Value {
+	var out ssa.Value
+	d.Walk(func(x *core.VD) bool {
+		if c, ok := x.Val.(*ssa.Call); ok && core.MethodName(c.Common()) == name {
+			out = c
+		}
+		return true
+	})
+	return out
 }
 
 // jobFuncOf resolves the function value passed as a job.
@@ -375,4 +500,9 @@ func checkSubscriptionLit(p *core.Prog, r *core.Report, ds *core.Describer, f *s
 	fromInfo("CommitteesAtSlot", "Duty", "CommitteesAtSlot")
 	fromInfo("IsAggregator", "IsAggregator")
 	_ = fmt.Sprint
+}
+
+func isSubscriptionPtr(t types.Type) bool {
+	pt, ok := t.(*types.Pointer)
+	return ok && typeName(pt) == "beaconcommitteesubscriber.Subscription"
 }
